@@ -48,7 +48,7 @@ def _mk(kind, reqmethod):
     return clienting.Respondent(msg=bytearray(), method=reqmethod)
 
 
-def feed(m, pieces, retarget=False, parser=None):
+def feed(m, pieces, retarget=False, parser=None, close_with_last=False):
     """Drive the real parser over the pieces.  Returns outcome dict.
     retarget: the parser is pointed at its buffer with the public makeParser(msg=buffer) (the first piece is already in
     the buffer then; an empty first piece means an empty buffer) instead of getting it from the constructor;
@@ -69,8 +69,16 @@ def feed(m, pieces, retarget=False, parser=None):
             p.parse()
     out["p"] = p
     try:
-        for piece in pieces:
+        for k, piece in enumerate(pieces):
             (buf if buf is not None else p.msg).extend(piece)
+            if close_with_last and k == len(pieces) - 1:
+                # the end of the connection is noticed together with the last bytes (the whole message is in the buffer)
+                p.close()
+                extra = 0
+                while p.parser and extra < 8:
+                    p.parse()
+                    extra += 1
+                break
             if p.parser:
                 p.parse()
                 out["calls"] += 1
@@ -216,6 +224,16 @@ def check_message(ctx, m, rng, nrandom, deadline):
         ctx.event(got["calls"])
         if got.get("extra") and m["framing"] != "close":
             ctx.hit("needed_extra_parse_calls")
+        if count % 5 == 1 and m["kind"] == "response" and not m["tail"] and not whole["exc"]:
+            # the same delivery, the server closing right behind the last bytes and the client noticing both together
+            alt = feed(m, hg.cut(stream, cuts), close_with_last=True)
+            ctx.hit("close_noticed_with_the_last_bytes")
+            altsame = (alt["exc"] is None and alt.get("done") == whole.get("done") and bool(alt.get("errored")) == bool(whole.get("errored"))
+                       and alt.get("fields") == whole.get("fields"))
+            ctx.check(altsame, "split/close-noticed-with-the-last-bytes-differs/%s" % fl,
+                      "a complete response whose last bytes are noticed together with the close of the connection parses differently "
+                      "from the same response parsed whole", lambda alt=alt: wit({"cuts": list(cuts), "whole": {k: v for k, v in whole.items() if k != "p"},
+                                                                    "closed_with_last": {k: v for k, v in alt.items() if k != "p"}}))
         if count % 7 == 0:
             # the same delivery to a parser that is pointed at its buffer with makeParser(msg=...): with nothing received yet
             # (fresh connection), or with the first piece already there
